@@ -137,8 +137,8 @@ fn hook(ev: &Event) {
                     }
                     b.done = Some(ok);
                     sig_step(b, b'D');
+                    st.active_decodes -= 1;
                 }
-                st.active_decodes -= 1;
                 if let Some((k, w)) = err {
                     bad(st, k, w);
                 }
@@ -254,7 +254,12 @@ fn monitor_reset(delay_seed: u64, level: u64) {
     st.tally.clear();
     st.signatures.clear();
     st.cluster_miss.clear();
-    st.max_active_decodes = st.active_decodes.max(0);
+    // Decoders started by the previous case may still be running (a reader returns as soon as the bytes it needs
+    // are published): their events were not recorded while the hook was off, so their buffers must not be
+    // shadowed any more. Only buffers created during this case are monitored.
+    st.bufs.clear();
+    st.active_decodes = 0;
+    st.max_active_decodes = 0;
     DELAY_SEED.store(delay_seed, Ordering::Relaxed);
     DELAY_LEVEL.store(level, Ordering::Relaxed);
     HOOK_ON.store(true, Ordering::Relaxed);
